@@ -16,7 +16,9 @@ from harness_acd import MockAccel, NpProxy
 
 class AndersonNp:
     """numpy for skglm/utils/anderson.py with a dyadic stand-in for np.linalg.solve (mirrors mock_solve_z of Skel/CorrSolvers.v):
-    z_k = 1 if the k-th difference vector is zero else 2; LinAlgError when the first difference is zero"""
+    LinAlgError when the first difference vector is zero; otherwise z_k = 1 except at the LAST non-zero difference vector, which
+    gets 2^ceil(log2 K) - (K - 1): the weights still depend on the iterates, and they sum to a power of two, so the extrapolation
+    coefficients z / sum(z) are dyadic and the mock traces stay exact in binary64"""
     def __getattr__(self, k): return getattr(np, k)
 
     class linalg:
@@ -26,7 +28,13 @@ class AndersonNp:
         def solve(A, b_):
             if A[0, 0] == 0:
                 raise np.linalg.LinAlgError("singular")
-            return np.array([1.0 if A[k, k] == 0 else 2.0 for k in range(len(b_))])
+            n = len(b_)
+            m = 1
+            while m < n:
+                m *= 2
+            z = np.ones(n)
+            z[max(k for k in range(n) if A[k, k] != 0)] = float(m - (n - 1))
+            return z
 
 
 def patched_anderson():
